@@ -18,6 +18,8 @@ CFG = """SPECIFICATION %(spec)s
 CONSTANTS
   MaxRoutes = %(n)d
   MaxGone = %(gone)d
+  ObsSel <- %(obs)s
+  MaxObs = %(nobs)d
   PatSel <- %(pats)s
   PathSel <- %(paths)s
   HostSel <- MCAllHosts
@@ -34,8 +36,8 @@ UNI = {"full": ("MCAllPats", "MCAllPaths"), "core": ("MCCorePats", "MCCorePaths"
        "tiny": ("MCTinyPats", "MCTinyPaths")}
 
 
-def cfg(spec, n, uni="full", inv=False, gone=0):
-    return CFG % dict(spec=spec, n=n, gone=gone, pats=UNI[uni][0], paths=UNI[uni][1], inv=(inv if isinstance(inv, str) else INV) if inv else "")
+def cfg(spec, n, uni="full", inv=False, gone=0, nobs=0):
+    return CFG % dict(spec=spec, n=n, gone=gone, obs="MCAllObs" if nobs else "MCNoObs", nobs=nobs, pats=UNI[uni][0], paths=UNI[uni][1], inv=(inv if isinstance(inv, str) else INV) if inv else "")
 
 
 def count_lines(path):
@@ -66,6 +68,7 @@ def run(ctx):
         "Table.LookupHost (TCP+SNI): only 'a route whose host is literally the server name, path /, serves it' is claimed; fallback to host-less or wildcard routes for SNI lookups is not judged",
         "the table is what a history of route commands leaves: routes that were added and deleted again (one, thorough two, per table; the three forms of `route del`) must neither serve nor shadow; such tables are built both by NewTable (text) and by NewTableCustom (command list of the custom back end), plain tables alternate between the two builders",
         "requests in flight together: the lines of one table that the generator printed consecutively (all 42 of a random table, fragments of the exhaustive ones) are replayed by 8 goroutines at once on one table with one shared GlobCache; every answer must be the sequential one (the statement quantifies over every request; scheduling is whatever the Go runtime does, so this pass can miss an interleaving - C06 owns the exhaustive treatment)",
+        "observers: a table (<=2 routes of the 9-route universe, thorough also the core universe) is installed as the ACTIVE table and read by one (thorough up to four) of Table.String, Table.Dump, GET /api/routes, GET /api/routes?raw before the lookups; the answers after the reads must be those before them (Match_MC!Observe leaves the table unchanged); the web UI page and the metrics side paths are not among the observers",
         "one target per route (the service name encodes the route), so the picker plays no role here (C04)",
     ]
     # 1. well-definedness of the declarative choice on the model
@@ -92,10 +95,12 @@ def run(ctx):
     # "tiny ... +1 deleted": every table of <=2 routes that a history with one added-and-deleted
     # route leaves (the deleted route must neither serve nor shadow)
     gens = [("full<=1", cfg("Spec", 1, "full"), 300), ("core<=2", cfg("Spec", 2, "core"), 600),
-            ("tiny<=2 +1 deleted", cfg("Spec", 2, "tiny", gone=1), 600)]
+            ("tiny<=2 +1 deleted", cfg("Spec", 2, "tiny", gone=1), 600),
+            ("tiny<=2 read by one observer", cfg("Spec", 2, "tiny", nobs=1), 600)]
     if ctx.thorough:
         gens = [("full<=2", cfg("Spec", 2, "full"), 1500), ("mini<=3", cfg("Spec", 3, "mini"), 1500),
-                ("tiny<=2 +2 deleted", cfg("Spec", 2, "tiny", gone=2), 900), ("mini<=1 +1 deleted", cfg("Spec", 1, "mini", gone=1), 900)]
+                ("tiny<=2 +2 deleted", cfg("Spec", 2, "tiny", gone=2), 900), ("mini<=1 +1 deleted", cfg("Spec", 1, "mini", gone=1), 900),
+                ("tiny<=2 read by up to 4 observers", cfg("Spec", 2, "tiny", nobs=4), 900), ("core<=2 read by one observer", cfg("Spec", 2, "core", nobs=1), 1500)]
     for name, text, to in gens:
         g = ctx.tlc("Match_MC", cfg_text=text, workers=WORKERS, json_sink=cases, timeout=to)
         ctx.log("Gen %s: %d transitions, %d states, %.0fs" % (name, g.generated, g.distinct, g.wall))
@@ -154,6 +159,23 @@ def run(ctx):
     ctx.cover("grpc", traces_validated_against_impl=gs["lines"], evaluations=gs["lookups"])
     ctx.take_failures(g, "c03-grpc")
 
+    # 3c. readers of the active table (Match_MC!Observe): the lines that carry observers are installed
+    #     with route.SetTable and read through the real admin API handler before the lookups
+    a = ctx.gotest("admin/api", ["admin/api/c03_test.go"], "^TestVerifC03Admin$", env={"VERIF_IN": cases}, timeout=900)
+    if not ctx.need_go_ok(a, "C03 admin-observer replay"):
+        return
+    if a.of_kind("error"):
+        ctx.inconclusive("C03 admin-observer replay: harness could not read its input: %s" % a.of_kind("error")[0].get("msg"))
+        return
+    as_ = a.summary
+    ctx.log("observers: %d installed tables read %d times (GET /api/routes, ?raw, String, Dump), %d lookups before/after (%d routed), %d failed, %.0fs"
+            % (as_["lines"], as_["reads"], as_["lookups"], as_["routed"], as_["fails"], a.wall))
+    if as_["reads"] == 0 or as_["routed"] == 0:
+        ctx.inconclusive("C03 admin-observer replay is vacuous")
+        return
+    ctx.cover("admin", traces_validated_against_impl=as_["lines"], evaluations=as_["lookups"])
+    ctx.take_failures(a, "c03-admin")
+
     # 4. binding self-test: corrupted expectations must be rejected by the harness
     uni, victim = None, None
     with open(cases) as fh:
@@ -198,7 +220,11 @@ def replay(ctx, rp):
     case = rp["replay"]["case"]
     one = os.path.join(ctx.tmp, "c03.replay")
     vf.write_ndjson(one, [case])
-    if rp["replay"].get("sub") == "c03-grpc":
+    if rp["replay"].get("sub") == "c03-admin":
+        r = ctx.gotest("admin/api", ["admin/api/c03_test.go"], "^TestVerifC03Admin$", env={"VERIF_IN": one}, timeout=600)
+        if not ctx.need_go_ok(r, "C03 admin-observer replay"):
+            return
+    elif rp["replay"].get("sub") == "c03-grpc":
         r = ctx.gotest("proxy", ["proxy/c03_grpc_test.go"], "^TestVerifC03Grpc$", env={"VERIF_IN": one}, timeout=600)
         if not ctx.need_go_ok(r, "C03 gRPC replay"):
             return
